@@ -589,7 +589,20 @@ pub fn record(out: &mut dyn std::io::Write, seed: u64, n_events: usize) {
     while seq < n_events {
         seq += 1;
         let space = names[seq % names.len()];
-        if seq % 6 == 0 {
+        if seq % 1500 == 12 || (seq <= 200 && seq % 25 == 12) {
+            // a long track (size-gated code paths: more than 128 / 256 / 512 coordinates): a random walk with steps of at
+            // most 0.05 degrees that stays between latitudes -80 and 80
+            let nv = [129usize, 130, 200, 257, 513, 1000][rng.gen_range(0..6)];
+            let (mut lon, mut lat) = (rng.gen_range(-170 * NANO..170 * NANO), rng.gen_range(-60 * NANO..60 * NANO));
+            let mut pts = vec![];
+            for _ in 0..nv {
+                pts.push(pt_in(lon, lat));
+                lon = (lon + rng.gen_range(-50_000_000..50_000_000i64)).clamp(-179 * NANO, 179 * NANO);
+                lat = (lat + rng.gen_range(-50_000_000..50_000_000i64)).clamp(-80 * NANO, 80 * NANO);
+            }
+            let inp = json!({"seq": seq, "space": space, "cls": "long_track", "pts": pts});
+            writeln!(out, "{}", probe_ls(&sp, &inp)).unwrap();
+        } else if seq % 6 == 0 {
             // a line string of 2..5 vertices drawn from the pair classes
             let cls = pick_class(&mut rng);
             let nv = rng.gen_range(2..=5usize);
